@@ -9,6 +9,10 @@ import Mathlib.Tactic.Ring
 import Mathlib.Tactic.Linarith
 import Mathlib.Tactic.FieldSimp
 import Mathlib.Analysis.InnerProductSpace.Basic
+import Mathlib.Algebra.BigOperators.Group.Finset.Basic
+import Mathlib.Algebra.BigOperators.Ring.Finset
+import Mathlib.Algebra.BigOperators.Intervals
+import Mathlib.Analysis.Real.Sqrt
 
 namespace OdlModel.Prox
 variable {K : Type} [Field K] [LinearOrder K] [IsStrictOrderedRing K]
@@ -52,6 +56,94 @@ theorem idxMap_getD {K : Type} (x : List K) (f : Nat → K → K) (i : Nat) (d :
 /-- Example data for the simplex threshold: the sorted vector (1, 1/2, -1). -/
 def uEx : ℕ → ℚ := fun k => if k = 0 then 1 else if k = 1 then 1 / 2 else -1
 
+/-! ## list sums and the fold of `proj_simplex` -/
+section SimplexFold
+open Finset
+
+omit [LinearOrder K] [IsStrictOrderedRing K] in
+theorem sumK_eq_sum (l : List K) : sumK l = l.sum := by
+  unfold sumK; exact List.sum_eq_foldl.symm
+
+omit [LinearOrder K] [IsStrictOrderedRing K] in
+theorem sum_range_getD (l : List K) (g : K → K) :
+    ∑ k ∈ range l.length, g (l.getD k 0) = (l.map g).sum := by
+  induction l with
+  | nil => simp
+  | cons a t ih =>
+    rw [List.length_cons, Finset.sum_range_succ', List.map_cons, List.sum_cons]
+    simp only [List.getD_cons_succ, List.getD_cons_zero]
+    rw [ih]; ring
+
+omit [LinearOrder K] [IsStrictOrderedRing K] in
+theorem sum_range_getD_take (l : List K) (m : ℕ) (hm : m ≤ l.length) :
+    ∑ k ∈ range m, l.getD k 0 = (l.take m).sum := by
+  have := sum_range_getD (l.take m) id
+  simp only [List.length_take, min_eq_left hm, List.map_id_fun, id] at this
+  rw [← this]
+  apply Finset.sum_congr rfl
+  intro k hk
+  have hk' := mem_range.mp hk
+  simp [List.getD_eq_getElem?_getD, hk']
+
+/-- Invariant of the fold `simplexTau.go` after `m` entries of the sorted list `u`. -/
+def SimplexInv (u : ℕ → K) (r : K) (m : ℕ) : Option K → Prop
+  | none => m = 0
+  | some tau => ∃ i, 1 ≤ i ∧ i ≤ m ∧ tau = 1 / (i : K) * (∑ k ∈ range i, u k - r) ∧
+      0 ≤ u (i - 1) - tau ∧
+      (i = m ∨ u i - 1 / ((i : K) + 1) * (∑ k ∈ range (i + 1), u k - r) < 0)
+
+theorem simplex_go_inv (r : K) (hr : 0 ≤ r) (xs : List K) :
+    ∀ (d m : ℕ) (best : Option K), m + d = xs.length →
+      SimplexInv (fun k => xs.getD k 0) r m best →
+      SimplexInv (fun k => xs.getD k 0) r xs.length
+        (simplexTau.go r (xs.drop m) ((m : K) + 1) (∑ k ∈ range m, xs.getD k 0) best) := by
+  intro d
+  induction d with
+  | zero =>
+    intro m best hm hinv
+    have : m = xs.length := by omega
+    subst this
+    rw [List.drop_length]
+    simp only [simplexTau.go]
+    exact hinv
+  | succ d ih =>
+    intro m best hm hinv
+    have hlt : m < xs.length := by omega
+    rw [List.drop_eq_getElem_cons hlt]
+    simp only [simplexTau.go]
+    have hget : xs[m] = xs.getD m 0 := by simp [List.getD_eq_getElem?_getD, hlt]
+    have hsum : ∑ k ∈ range m, xs.getD k 0 + xs[m] = ∑ k ∈ range (m + 1), xs.getD k 0 := by
+      rw [Finset.sum_range_succ, hget]
+    have hj : (m : K) + 1 + 1 = ((m + 1 : ℕ) : K) + 1 := by push_cast; ring
+    rw [hsum, hj]
+    apply ih (m + 1) _ (by omega)
+    -- the invariant after processing entry m
+    split_ifs with hc
+    · refine ⟨m + 1, by omega, le_refl _, ?_, ?_, Or.inl rfl⟩
+      · push_cast; ring
+      · simpa [hget] using hc
+    · -- crit < 0: best unchanged
+      have hc' := not_le.mp hc
+      cases best with
+      | none =>
+        -- m = 0: crit_1 = r ≥ 0, contradiction
+        have hm0 : m = 0 := hinv
+        subst hm0
+        exfalso
+        rw [hget] at hc'
+        simp only [Nat.cast_zero, zero_add, Finset.sum_range_one, div_one, one_mul] at hc'
+        linarith
+      | some tau =>
+        obtain ⟨i, hi1, him, htau, hcrit, hnext⟩ := hinv
+        refine ⟨i, hi1, by omega, htau, hcrit, ?_⟩
+        rcases hnext with h | h
+        · right
+          subst h
+          simpa [hget] using hc'
+        · right; exact h
+
+end SimplexFold
+
 /-! ## the abstract layer: functionals on a real inner product space -/
 section Abstract
 variable {E : Type} [NormedAddCommGroup E] [InnerProductSpace ℝ E]
@@ -72,6 +164,63 @@ def IsConjPair (C : Set E) (f : E → ℝ) (D : Set E) (fs : E → ℝ) : Prop :
   (∀ z ∈ C, ∀ y ∈ D, inner ℝ z y ≤ f z + fs y) ∧
   (∀ p ∈ C, ∀ g : E, (∀ z ∈ C, f p + inner ℝ g (z - p) ≤ f z) →
     g ∈ D ∧ f p + fs g = inner ℝ p g)
+
+/-- Functional expression trees over an inner product space: arbitrary leaves `(C, f, P)` and
+the calculus nodes of `functional.py`.  `PTree.prox` is assembled from the SAME combinators
+(`proxTranslation`, `proxArgScaling`, `proxLeftScale`, `proxQuadPerturb`, `proxConvexConj`)
+that the executable `Fn.prox` calls on lists. -/
+inductive PTree (E : Type) where
+  | leaf (C : Set E) (f : E → ℝ) (P : ℝ → E → E)
+  | trans (t : PTree E) (y : E)
+  | argScale (t : PTree E) (s : ℝ)
+  | leftScale (t : PTree E) (c : ℝ)
+  | quad (t : PTree E) (a : ℝ) (u : E)
+  | conj (t : PTree E) (D : Set E) (fs : E → ℝ)
+
+/-- Effective domain of the denoted functional. -/
+def PTree.dom : PTree E → Set E
+  | .leaf C _ _ => C
+  | .trans t y => {z | z - y ∈ t.dom}
+  | .argScale t s => {z | s • z ∈ t.dom}
+  | .leftScale t _ => t.dom
+  | .quad t _ _ => t.dom
+  | .conj _ D _ => D
+
+/-- Value of the denoted functional on its domain. -/
+def PTree.val : PTree E → E → ℝ
+  | .leaf _ f _ => f
+  | .trans t y => fun z => t.val (z - y)
+  | .argScale t s => fun z => t.val (s • z)
+  | .leftScale t c => fun z => c * t.val z
+  | .quad t a u => fun z => t.val z + a * ‖z‖ ^ 2 + inner ℝ z u
+  | .conj _ _ fs => fs
+
+/-- The derived proximal factory, as `functional.py` derives it. -/
+noncomputable def PTree.prox (rsqrt : ℝ → ℝ) : PTree E → ℝ → E → E
+  | .leaf _ _ P => P
+  | .trans t y => proxTranslation (t.prox rsqrt) y
+  | .argScale t s => proxArgScaling (t.prox rsqrt) s
+  | .leftScale t c => proxLeftScale (t.prox rsqrt) c
+  | .quad t a u => proxQuadPerturb rsqrt (t.prox rsqrt) a (some u)
+  | .conj t _ _ => proxConvexConj (t.prox rsqrt)
+
+/-- Side conditions under which the code's rules are valid: correct leaves, non-zero argument
+scaling, positive left scaling, non-negative quadratic coefficient, a genuine conjugate. -/
+def PTree.WF : PTree E → Prop
+  | .leaf C f P => ∀ σ, 0 < σ → IsProx C f σ (P σ)
+  | .trans t _ => t.WF
+  | .argScale t s => s ≠ 0 ∧ t.WF
+  | .leftScale t c => 0 < c ∧ t.WF
+  | .quad t a _ => 0 ≤ a ∧ t.WF
+  | .conj t D fs => IsConjPair t.dom t.val D fs ∧ t.WF
+
+/-- Example tree over `ℝ`: quad(leftScale(argScale(trans(leaf L2)))) with the model's L2
+proximal at the leaf. -/
+noncomputable def exTree : PTree ℝ :=
+  .quad (.leftScale (.argScale (.trans
+    (.leaf Set.univ (fun z : ℝ => 2 * ‖z - 1‖) (proxL2 (fun v : ℝ => ‖v‖) 0 2 (some 1)))
+    5) (-3)) 4) (3 / 2) 7
+
 
 end Abstract
 
